@@ -1,6 +1,6 @@
 """C03 — wire format vs an independent SAE implementation (reference peer written from the standard)."""
 import random
-from .. import common as C, corr21, net21, sim
+from .. import common as C, corr21, corr22, net21, sim
 from ..gen21 import rand_payload, can_id, TP_CM, TP_DT
 from . import c09
 
@@ -15,7 +15,9 @@ ASSUMPTIONS = ["Model/Ref.lean and the Python reference peer (vlib/net21.py RefP
 
 
 def correspondence(ctx):
-    return corr21.run(ctx, ctx.n(150, 5000), ctx.n(20, 500), 3)
+    a = corr21.run(ctx, ctx.n(150, 5000), ctx.n(20, 500), 3)
+    b = corr22.run(ctx, ctx.n(60, 2500), ctx.n(10, 300), 3)          # J1939-22 frame builders through the model
+    return corr22.merge(a, b)
 
 
 def bam_cases(rng):
